@@ -62,7 +62,15 @@ def propose(rng, desc, counter):
         keep = ['id'] + rng.sample([n for n in names if n != 'id'], rng.randint(1, len(names) - 1)) if 'id' in names else names[:2]
         return 'select_fields', lambda: DF.select_fields(list(keep), resources=rname, regex=False)
     if kind == 'rename' and len(names) > 1:
-        victim = rng.choice([n for n in names if n != 'id'])
+        cands = [n for n in names if n != 'id']
+        victim = rng.choice(cands)
+        shape = rng.choice(['fresh', 'fresh', 'swap', 'chain']) if len(cands) >= 2 else 'fresh'
+        if shape == 'swap':
+            a, b = rng.sample(cands, 2)
+            return 'rename_fields:swap', lambda: DF.rename_fields({a: b, b: a}, resources=rname, regex=False)
+        if shape == 'chain':
+            a, b = rng.sample(cands, 2)
+            return 'rename_fields:chain', lambda: DF.rename_fields({a: b, b: fresh}, resources=rname, regex=False)
         return 'rename_fields', lambda: DF.rename_fields({victim: fresh}, resources=rname, regex=False)
     if kind == 'set_type' and ints:
         f = rng.choice(ints)
